@@ -6,7 +6,7 @@
    rung 3 = whole files (C02_full below, stated, not proved: it needs Model/Loader.v). *)
 From LV Require Import Base.Bytes Base.Sx Model.Obj Model.Writer Model.Parser Model.Xref Spec.XrefSpec
   Model.ObjStm Proofs.LexProofs Proofs.XrefProofs Proofs.XrefTableProofs Proofs.ObjStmProofs
-  Spec.RefWriter Proofs.SpellingProofs.
+  Spec.RefWriter Proofs.SpellingProofs Proofs.LitStringProofs Proofs.SpellingProofsLit.
 Local Open Scope N_scope.
 
 (* (1) Cross-reference streams.  For ALL field widths (0 = field absent, any positive width, not all three
@@ -115,6 +115,34 @@ Theorem C02_integer_any_spelling :
     integer (w_int z plus lz ++ rest) = POk z rest.
 Proof. exact integer_any_spelling. Qed.
 
+
+(* a literal string in which every byte is written raw (LF included), as a two-character escape, as an octal
+   escape of one, two or three digits, or behind an ignored backslash, with backslash-end-of-line
+   continuations (any of the three markers) before any byte and before the closing parenthesis.
+   PARTIAL: (a) parentheses left raw are excluded ([no_raw_paren], unless the style's raw parentheses are
+   unbalanced, in which case the writer escapes them all); c14's literal_string_rt covers balanced raw
+   parentheses for lopdf's own spelling; (b) LF spelled as a raw CR or CR LF is the open finding C02-raw-eol
+   ([no_raw_cr]). *)
+Theorem C02_literal_any_spelling_partial :
+  forall s (st : list lpos) (tc : list eolk) rest fuel,
+    (raw_parens_balanced s st 0 = false \/ no_raw_paren s st = true) -> no_raw_cr s st = true ->
+    (length (w_literal s st tc ++ rest) <= fuel)%nat ->
+    literal_string fuel (w_literal s st tc ++ rest) = POk s rest.
+Proof. exact literal_any_spelling_partial. Qed.
+
+Definition ex_lit : bytes := [x41; x0a; x28; x5c; x07; x39; x0d].
+Definition ex_lit_style : list lpos :=
+  [{| l_cont := [ECR]; l_ch := LIgn |}; {| l_cont := []; l_ch := LRaw |}; {| l_cont := []; l_ch := LShort |};
+   {| l_cont := [ELF; ECRLF]; l_ch := LOct 3 |}; {| l_cont := []; l_ch := LOct 1 |};
+   {| l_cont := []; l_ch := LRaw |}; {| l_cont := []; l_ch := LShort |}].
+
+Theorem C02_example_literal :
+  w_literal ex_lit ex_lit_style [ECRLF] =
+    bs "(\" ++ [x0d] ++ bs "\A" ++ [x0a] ++ bs "\(\" ++ [x0a] ++ bs "\" ++ [x0d; x0a] ++ bs "\134\0079\r\" ++ [x0d; x0a] ++ bs ")" /\
+  no_raw_paren ex_lit ex_lit_style = true /\ no_raw_cr ex_lit ex_lit_style = true /\
+  literal_string 100 (w_literal ex_lit ex_lit_style [ECRLF] ++ bs "/X") = POk ex_lit (bs "/X").
+Proof. repeat split; vm_compute; reflexivity. Qed.
+
 (* non-vacuity of the spellings: a name, a hexadecimal string and an integer in unusual dress *)
 Theorem C02_example_spellings :
   w_name (bs "A b#") [NHex false true; NPlain; NPlain; NPlain] = bs "/#41#20b#23" /\
@@ -193,6 +221,8 @@ Print Assumptions C02_filler_any.
 Print Assumptions C02_name_any_spelling.
 Print Assumptions C02_hex_string_any_spelling.
 Print Assumptions C02_integer_any_spelling.
+Print Assumptions C02_literal_any_spelling_partial.
+Print Assumptions C02_example_literal.
 Print Assumptions C02_example_spellings.
 Print Assumptions C02_example_stream.
 Print Assumptions C02_example_objstm.
